@@ -101,6 +101,45 @@ def semantic_cases(sch):
     return out
 
 
+def nesting_tie(verdict, stats):
+    """Tie of coq/Stream/Nesting.v to the source: the limit constant, the guard's two operations and the
+    three generated decoders that call them (struct, oneof, multimap) are transcribed from /repo."""
+    import re
+    repo = vlib.REPO
+    problems = []
+    try:
+        lim_src = open(os.path.join(repo, 'go/pkg/limits.go')).read()
+        chk = open(os.path.join(repo, 'go/pkg/allocsizechecker.go')).read()
+        m = re.search(r'const\s+RecordNestingLimit\s*=\s*([0-9<\s]+)', lim_src)
+        go_lim = eval(m.group(1).strip(), {}) if m else None
+        coq_lim = int(re.search(r'Definition record_nesting_limit : N := (\d+)\.',
+                                open(os.path.join(vlib.COQ, 'Stream/Nesting.v')).read()).group(1))
+        if go_lim != coq_lim:
+            problems.append(f'RecordNestingLimit is {go_lim} in go/pkg/limits.go, {coq_lim} in the model')
+        def body(name):
+            mm = re.search(r'func \(a \*AllocSizeChecker\) ' + name + r'\(\)[^{]*\{(.*?)\n\}', chk, re.S)
+            return re.sub(r'\s+', '', re.sub(r'//[^\n]*', '', mm.group(1))) if mm else None
+        want = {'EnterNested': 'a.nestingDepth++ifa.nestingDepth>RecordNestingLimit{returnErrRecordNestingLimitExceeded}returnnil',
+                'LeaveNested': 'a.nestingDepth--'}
+        for name, w in want.items():
+            if body(name) != w:
+                problems.append(f'{name} no longer reads as the modelled operation: {body(name)!r}')
+        if 'a.nestingDepth=0' not in (body('ResetAllocSize') or ''):
+            problems.append('ResetAllocSize does not reset nestingDepth')
+        for t in ('struct', 'oneof', 'multimap'):
+            tm = open(os.path.join(repo, f'stefc/templates/go/{t}.go.tmpl')).read()
+            e, l = tm.count('allocSizeChecker.EnterNested()'), tm.count('allocSizeChecker.LeaveNested()')
+            stats[f'nesting_calls_{t}'] = f'{e}/{l}'
+            if e != 1 or l != 1:
+                problems.append(f'{t}.go.tmpl: {e} EnterNested / {l} LeaveNested calls (model: one of each per decoder)')
+    except Exception as ex:  # the source moved: the transcription cannot be checked any more
+        problems.append(f'cannot read the nesting guard: {ex!r}')
+    stats['nesting_tie'] = 'ok' if not problems else 'broken'
+    if problems:
+        verdict.violation(dict(broken='correspondence of coq/Stream/Nesting.v (theorems C03_nesting_guard, C03_record_nesting_guard)',
+                               problems=problems), 'nesting guard: model and source differ: ' + '; '.join(problems), no_input=True)
+
+
 def main():
     seed, tier = vlib.seed_and_tier(sys.argv[1] if len(sys.argv) > 1 else 'quick')
     t0 = time.time()
@@ -113,6 +152,7 @@ def main():
     counters, stats, samples = collections.Counter(), collections.Counter(), []
     known = {k['id']: k for k in vlib.load_known() if k['property'] == PROP and k.get('status') == 'known'}
     ncases = 0
+    nesting_tie(verdict, stats)
     if not (ok_go and ok_c3):
         verdict.violation(dict(broken='go build failed', log=(log_go + log_c3)[-3000:]), 'harness does not build', no_input=True)
     elif not ok_oc:
